@@ -767,6 +767,90 @@ pub fn f_sugar(thorough: bool) -> Vec<Unit> {
 }
 fn p_arity(p: &Prog, r: usize) -> usize { p.rels[r].arity }
 
+// ------------------------------------------------------------------------------------------ F-macro
+const P0: Var = PARAM_BASE;
+const P1: Var = PARAM_BASE + 1;
+fn call(mac: usize, args: Vec<MacArg>) -> BodyItem { BodyItem::Call { mac, args } }
+fn mi(v: Var) -> MacArg { MacArg::Ident(v) }
+
+/// in-program macros: definitions with ident / expr parameters, locals, conditions, disjunctions, nested
+/// invocations and head macros x call patterns x every spelling clash between call-site variables, macro-local
+/// identifiers, parameter names and the names the macro renamer itself generates
+pub fn f_macro(thorough: bool) -> Vec<Unit> {
+    let n = 2;
+    let base = shape_schema(n, false);
+    let (a, b, pp, q) = (0usize, 1usize, 2usize, 3usize);
+    // macro-local variables use ids 50.., call-site variables 0..
+    let (l0, l1): (Var, Var) = (50, 51);
+    let macros = vec![
+        // 0: two clauses joined through a local
+        MacroDef { name: "m".into(), params: vec![MacParam::Ident, MacParam::Ident], body: vec![atom(b, vec![v(P0), v(l0)]), atom(pp, vec![v(l0), v(P1)])], heads: vec![] },
+        // 1: expression parameter used as a clause argument
+        MacroDef { name: "n".into(), params: vec![MacParam::Ident, MacParam::Expr], body: vec![atom(b, vec![v(P0), v(P1)])], heads: vec![] },
+        // 2: disjunction and a condition over a parameter and a local
+        MacroDef { name: "d".into(), params: vec![MacParam::Ident], body: vec![BodyItem::Disj(vec![vec![atom(a, vec![v(P0)])], vec![atom(b, vec![v(P0), v(l0)]), BodyItem::Cond(Cond::Ne(ev(P0), ev(l0)))]])], heads: vec![] },
+        // 3: nested invocation passing a parameter and a local on
+        MacroDef { name: "o".into(), params: vec![MacParam::Ident, MacParam::Ident], body: vec![call(0, vec![mi(P0), mi(l0)]), atom(b, vec![v(l0), v(P1)])], heads: vec![] },
+        // 4: three levels
+        MacroDef { name: "t".into(), params: vec![MacParam::Ident], body: vec![call(3, vec![mi(P0), mi(l1)]), call(2, vec![mi(l1)])], heads: vec![] },
+        // 5: head macro
+        MacroDef { name: "h".into(), params: vec![MacParam::Ident, MacParam::Ident], body: vec![], heads: vec![Head { rel: pp, args: vec![HArg::E(ev(P0)), HArg::E(ev(P1))] }, Head { rel: q, args: vec![HArg::E(ev(P1))] }] },
+        // 6: local bound by a let and a negation inside the macro
+        MacroDef { name: "k".into(), params: vec![MacParam::Ident], body: vec![atom(b, vec![v(P0), v(l0)]), BodyItem::Cond(Cond::Let(l1, Expr::Succ(Box::new(ev(l0))))), BodyItem::Neg { rel: a, args: vec![Arg::Expr(ev(l1))] }], heads: vec![] },
+    ];
+    let ctx = rule(vec![head(pp, vec![ev(0), ev(1)])], vec![atom(b, vec![v(0), v(1)])]);
+    // call patterns (call-site variables 0,1,2,3)
+    let rules: Vec<(&str, Rule)> = vec![
+        ("one-call", rule(vec![head(pp, vec![ev(0), ev(1)])], vec![call(0, vec![mi(0), mi(1)])])),
+        ("same-macro-twice", rule(vec![head(pp, vec![ev(0), ev(2)])], vec![call(0, vec![mi(0), mi(1)]), call(0, vec![mi(1), mi(2)])])),
+        ("same-macro-twice-same-args", rule(vec![head(q, vec![ev(0)])], vec![call(0, vec![mi(0), mi(1)]), call(0, vec![mi(0), mi(1)])])),
+        ("call-after-clause", rule(vec![head(pp, vec![ev(1), ev(2)])], vec![atom(a, vec![v(0)]), atom(b, vec![v(0), v(1)]), call(0, vec![mi(1), mi(2)])])),
+        ("expr-arg-const", rule(vec![head(q, vec![ev(0)])], vec![call(1, vec![mi(0), MacArg::Expr(Expr::Const(0))])])),
+        ("expr-arg-expr", rule(vec![head(pp, vec![ev(0), ev(1)])], vec![atom(a, vec![v(0)]), call(1, vec![mi(1), MacArg::Expr(Expr::Succ(Box::new(ev(0))))])])),
+        ("expr-arg-ident", rule(vec![head(pp, vec![ev(0), ev(1)])], vec![call(1, vec![mi(0), MacArg::Expr(ev(1))])])),
+        ("disjunction-macro", rule(vec![head(q, vec![ev(0)])], vec![atom(pp, vec![v(0), v(1)]), call(2, vec![mi(1)])])),
+        ("disjunction-macro-twice", rule(vec![head(pp, vec![ev(0), ev(1)])], vec![atom(pp, vec![v(0), v(1)]), call(2, vec![mi(0)]), call(2, vec![mi(1)])])),
+        ("macro-inside-disjunction", rule(vec![head(pp, vec![ev(0), ev(1)])], vec![BodyItem::Disj(vec![vec![call(0, vec![mi(0), mi(1)])], vec![atom(b, vec![v(1), v(0)])]])])),
+        ("nested", rule(vec![head(pp, vec![ev(0), ev(1)])], vec![call(3, vec![mi(0), mi(1)])])),
+        ("nested-twice", rule(vec![head(pp, vec![ev(0), ev(2)])], vec![call(3, vec![mi(0), mi(1)]), call(3, vec![mi(1), mi(2)])])),
+        ("three-deep", rule(vec![head(q, vec![ev(0)])], vec![call(4, vec![mi(0)])])),
+        ("head-macro", rule(vec![HeadItem::Call { mac: 5, args: vec![mi(1), mi(0)] }], vec![atom(b, vec![v(0), v(1)])])),
+        ("head-and-body-macro", rule(vec![HeadItem::Call { mac: 5, args: vec![mi(0), mi(2)] }, head(q, vec![ev(1)])], vec![call(0, vec![mi(0), mi(1)]), call(1, vec![mi(1), MacArg::Expr(ev(2))])])),
+        ("let-and-negation", rule(vec![head(q, vec![ev(0)])], vec![call(6, vec![mi(0)]), call(6, vec![mi(0)])])),
+    ];
+    // spellings: macro locals are spelled "z" and "w"; call-site variables get every clash pattern
+    let local_names: Vec<(Var, &str)> = vec![(l0, "z"), (l1, "w")];
+    let mut schemes: Vec<Vec<&str>> = vec![
+        vec!["x", "y", "u", "r"],          // no clash
+        vec!["z", "y", "u", "r"],          // first call-site variable spelled like a macro local
+        vec!["x", "z", "w", "r"],          // second and third spelled like the locals
+        vec!["w", "z", "x", "y"],
+        vec!["__z_", "__z_0", "x", "y"],   // what the macro renamer generates for z
+        vec!["z_", "__w_", "z", "x"],
+        vec!["p0", "p1", "z", "w"],        // spelled like the parameters (without the $)
+    ];
+    if !thorough { schemes.truncate(7); }
+    let mut units = vec![];
+    for (rname, r) in &rules {
+        for (si, scheme) in schemes.iter().enumerate() {
+            let mut p = base.clone();
+            p.macros = macros.clone();
+            p.rules = vec![ctx.clone(), r.clone()];
+            let expanded = crate::expand::expand_macros(&p);
+            let core = crate::expand::desugar(&expanded);
+            if crate::refeval::stratify(&core).is_err() { continue; }
+            let mut u = Unit::simple(core.clone(), &format!("macro-{}-names{}", rname, si));
+            let mut vm = Variant::plain(&p); vm.label = "with-macros".into();
+            for (i, nm) in scheme.iter().enumerate() { vm.var_names.insert(i as Var, nm.to_string()); }
+            for (v, nm) in &local_names { vm.var_names.insert(*v, nm.to_string()); }
+            let mut ve = Variant::plain(&expanded); ve.label = "hand-expanded".into();
+            u.variants = vec![vm, ve];
+            units.push(u);
+        }
+    }
+    units
+}
+
 pub fn units(family: &str, thorough: bool) -> Vec<Unit> {
     match family {
         "shape" => f_shape(thorough),
@@ -777,6 +861,7 @@ pub fn units(family: &str, thorough: bool) -> Vec<Unit> {
         "ds" => f_ds(thorough),
         "par" => f_par(thorough),
         "sugar" => f_sugar(thorough),
+        "macro" => f_macro(thorough),
         _ => panic!("unknown family {}", family),
     }
 }
